@@ -26,20 +26,34 @@ def dispatch (op : String) (f : List Text) : String :=
   | "semver.ispre", [s] => tf (Semver.isPrerelease s)
   | "semver.bump", cur :: avail =>
     s!"{opt (Semver.calcLatestPatch cur avail)} {opt (Semver.calcLatestMinor cur avail)} {opt (Semver.calcLatestMajor cur avail)}"
+  | "match.exists", eco :: spec :: vs =>
+    match matcherFor eco with
+    | some m => tf (m.exists_ spec vs)
+    | none => "UNKNOWN-ECO"
+  | "match.cmp", [eco, spec, latest] =>
+    match matcherFor eco with
+    | some m => (m.cmp spec latest).toString
+    | none => "UNKNOWN-ECO"
   | _, _ => s!"UNKNOWN-OP {op}"
 
-partial def loop (h : IO.FS.Stream) (out : IO.FS.Stream) : IO Unit := do
+partial def loop (h : IO.FS.Stream) (out : IO.FS.Stream) (st : DState) : IO Unit := do
   let line ← h.getLine
   if line.isEmpty then return ()
   let line := (line.dropEndWhile (· == '\n')).toString
-  if line.isEmpty then loop h out else
+  if line.isEmpty then loop h out st else
   match line.splitOn "\t" with
   | op :: fields =>
-    out.putStrLn (dispatch op (fields.map unhex))
-    loop h out
-  | [] => loop h out
+    let f := fields.map unhex
+    match cacheStep st op f with
+    | some (st', r) =>
+      out.putStrLn r
+      loop h out st'
+    | none =>
+      out.putStrLn (dispatch op f)
+      loop h out st
+  | [] => loop h out st
 
 def main : IO Unit := do
   let stdin ← IO.getStdin
   let stdout ← IO.getStdout
-  loop stdin stdout
+  loop stdin stdout {}
